@@ -16,8 +16,10 @@ import (
 	"fmt"
 	"os"
 	"path/filepath"
+	"regexp"
 	"runtime"
 	"sort"
+	"strconv"
 	"strings"
 	"time"
 
@@ -339,21 +341,35 @@ func tail(s string, n int) string {
 	return s
 }
 
+// panicLine extracts the panic message and its site from a worker's stderr. Files of the root package and of
+// pkg/rtpreceiver, pkg/rtpsender, pkg/rtptime are compiled from time-rewritten copies that carry one extra
+// header line: their line numbers are one higher than in the repository.
 func panicLine(stderr string) string {
 	lines := strings.Split(stderr, "\n")
 	for i, l := range lines {
 		if strings.HasPrefix(l, "panic:") || strings.HasPrefix(l, "fatal error:") {
-			out := l
+			var sites []string
 			for _, m := range lines[i+1:] {
-				if strings.Contains(m, "gortsplib/v5") && strings.HasPrefix(m, "\t") {
-					return out + " at " + strings.TrimSpace(m)
+				if strings.HasPrefix(m, "\t/") && !strings.Contains(m, "/usr/") && !strings.Contains(m, "/go/") {
+					site := strings.Fields(strings.TrimSpace(m))[0]
+					if j := strings.LastIndex(site, ":"); j > 0 && reRewritten.MatchString(site[:j]) {
+						if n, err := strconv.Atoi(site[j+1:]); err == nil {
+							site = fmt.Sprintf("%s:%d", site[:j], n-1)
+						}
+					}
+					sites = append(sites, site)
+					if len(sites) == 3 {
+						break
+					}
 				}
 			}
-			return out
+			return l + " at " + strings.Join(sites, " <- ")
 		}
 	}
 	return tail(stderr, 300)
 }
+
+var reRewritten = regexp.MustCompile(`^/[^/]+(/[^/]+)*/pkg/(rtpreceiver|rtpsender|rtptime)/[a-z_0-9]+\.go$|^(/[^/]+)*/repo/[a-z_0-9]+\.go$`)
 
 func chunk(cases []Case, n int, pairs bool, minK2 func(Case) int) []Job {
 	var jobs []Job
